@@ -630,3 +630,111 @@ pub fn inter(rec: &mut Recorder, rng: &mut Rng, thorough: bool) {
         rec.count("inter_rows");
     }
 }
+
+fn ops_str(ops: &[rq::SymbolOps]) -> String {
+    ops.iter()
+        .map(|op| match op {
+            rq::SymbolOps::AddAssign { dest, src } => format!("a:{dest}:{src}"),
+            rq::SymbolOps::MulAssign { dest, scalar } => format!("m:{dest}:{}", scalar.byte()),
+            rq::SymbolOps::FMA { dest, src, scalar } => format!("f:{dest}:{src}:{}", scalar.byte()),
+            rq::SymbolOps::Reorder { order } => format!("r:{}", order.iter().map(|x| x.to_string()).collect::<Vec<_>>().join(".")),
+        })
+        .collect::<Vec<_>>()
+        .join(",")
+}
+
+// ---------------------------------------------------------------- plans (C06 plan replay, C09 model tie, C17 transparency oracle)
+pub fn plan(rec: &mut Recorder, rng: &mut Rng, thorough: bool) {
+    let n = if thorough { 200 } else { 40 };
+    for it in 0..n {
+        let k = pick_k(rng, if it % 10 == 9 { if thorough { 600 } else { 260 } } else { 90 });
+        let t = rng.range(1, 5) as u16;
+        let data = rng.bytes(k as usize * t as usize);
+        let thr = match it % 3 { 0 => None, 1 => Some(0u32), _ => Some(1 << 30) };
+        let d2 = data.clone();
+        let r = guarded(move || {
+            let plan = match thr { None => SourceBlockEncodingPlan::generate(k as u16), Some(x) => SourceBlockEncodingPlan::verif_generate(k as u16, x).expect("plan generation failed") };
+            let cfg = cfg_for(k, t, 1, 1);
+            let enc = SourceBlockEncoder::with_encoding_plan(0, &cfg, &d2, &plan);
+            let direct = SourceBlockEncoder::verif_new_unplanned(0, &cfg, &d2, thr.unwrap_or(rq::SPARSE_MATRIX_THRESHOLD)).expect("direct solve failed");
+            (ops_str(plan.verif_operations()), enc.verif_intermediate_symbols().concat(), direct.verif_intermediate_symbols().concat(), plan.verif_source_symbol_count())
+        });
+        match r {
+            Ok((ops, c, cdirect, cnt)) => {
+                if c != cdirect { rec.impl_violation(format!("plan replay and direct solve give different intermediate symbols K={k} threshold={:?}", thr)); }
+                if cnt as u32 != k { rec.impl_violation(format!("plan for K={k} records symbol count {cnt}")); }
+                rec.put(&format!("planrun {k} {t} {} {ops}", hex(&data)), &format!("valid {}", hex(&c)));
+                rec.count(match thr { None => "plan_default", Some(0) => "plan_sparse", _ => "plan_dense" });
+            }
+            Err(_) => { rec.impl_violation(format!("plan generation / replay panics K={k} threshold={:?}", thr)); rec.put(&format!("sys {k}"), "plan-failed"); }
+        }
+    }
+}
+
+fn xor(a: &[u8], b: &[u8]) -> Vec<u8> { a.iter().zip(b).map(|(x, y)| x ^ y).collect() }
+
+// ---------------------------------------------------------------- linearity / byte-column independence (C09), on the implementation
+pub fn linear(rec: &mut Recorder, rng: &mut Rng, thorough: bool) {
+    use crate::e1::pmul;
+    let tmax = if thorough { 4 * 64 + 70 } else { 4 * 64 + 6 };
+    for t in 1..=tmax as u16 {
+        if !thorough && t > 140 && t % 3 != 0 && t % 64 > 2 && t % 64 < 62 { continue; }
+        let k = pick_k(rng, 40);
+        let (a, b) = (rng.bytes(k as usize * t as usize), rng.bytes(k as usize * t as usize));
+        let c = rng.range(2, 255) as u8;
+        let esis: Vec<u32> = vec![0, k - 1, k, k + 1, pick_repair_esi(rng, k), pick_repair_esi(rng, k), (1 << 24) - 1];
+        let cols: Vec<usize> = vec![0, (t as usize) - 1, rng.below(t as u64) as usize, (t as usize).saturating_sub(4).min(t as usize - 1)];
+        let (a2, b2, e2, cols2) = (a.clone(), b.clone(), esis.clone(), cols.clone());
+        let r = guarded(move || {
+            let cfg = cfg_for(k, t, 1, 1);
+            let pk = |d: &[u8]| -> Vec<Vec<u8>> {
+                let enc = SourceBlockEncoder::new(0, &cfg, d);
+                let src = enc.source_packets();
+                e2.iter().map(|e| if *e < k { src[*e as usize].data().to_vec() } else { enc.repair_packets(e - k, 1)[0].data().to_vec() }).collect()
+            };
+            let pa = pk(&a2);
+            let pb = pk(&b2);
+            let pab = pk(&xor(&a2, &b2));
+            let pca = pk(&a2.iter().map(|x| pmul(c, *x)).collect::<Vec<u8>>());
+            let mut bad = vec![];
+            for i in 0..pa.len() {
+                if pab[i] != xor(&pa[i], &pb[i]) { bad.push(format!("additivity ESI {}", e2[i])); }
+                if pca[i] != pa[i].iter().map(|x| pmul(c, *x)).collect::<Vec<u8>>() { bad.push(format!("homogeneity scalar {c} ESI {}", e2[i])); }
+            }
+            // column j alone, symbol size 1
+            let cfg1 = cfg_for(k, 1, 1, 1);
+            for j in cols2 {
+                let col: Vec<u8> = (0..k as usize).map(|m| a2[m * t as usize + j]).collect();
+                let enc = SourceBlockEncoder::new(0, &cfg1, &col);
+                let src = enc.source_packets();
+                for (i, e) in e2.iter().enumerate() {
+                    let one = if *e < k { src[*e as usize].data()[0] } else { enc.repair_packets(e - k, 1)[0].data()[0] };
+                    if one != pa[i][j] { bad.push(format!("column {j} ESI {e}")); }
+                }
+            }
+            // decoding at this symbol size from repair symbols only
+            let enc = SourceBlockEncoder::new(0, &cfg, &a2);
+            let mut dec = SourceBlockDecoder::new(0, &cfg, k as u64 * t as u64);
+            let out = dec.decode(enc.repair_packets(5, k + 12));
+            if out.as_deref() != Some(&a2[..]) { bad.push("decode from repair symbols".to_string()); }
+            bad
+        });
+        match r {
+            Ok(bad) => for b in bad { rec.impl_violation(format!("linearity violated at K={k} T={t}: {b}")); },
+            Err(_) => rec.impl_violation(format!("encoder/decoder panics at K={k} T={t}")),
+        }
+        rec.count(&format!("linear_T_mod64_{}", match t % 64 { 0 => "0", 1..=7 => "1-7", 8..=15 => "8-15", 16..=31 => "16-31", _ => "32-63" }));
+        // model tie at this symbol size: payloads vs the model encoder
+        if t <= 40 || t % 16 <= 1 {
+            let d2 = a.clone();
+            let e3 = esis.clone();
+            let r = guarded(move || {
+                let cfg = cfg_for(k, t, 1, 1);
+                let enc = SourceBlockEncoder::new(0, &cfg, &d2);
+                let src = enc.source_packets();
+                e3.iter().map(|e| if *e < k { hex(src[*e as usize].data()) } else { hex(enc.repair_packets(e - k, 1)[0].data()) }).collect::<Vec<_>>().join(",")
+            });
+            rec.put(&format!("enc {t} 1 1 {} {}", hex(&a), list(&esis)), &r.unwrap_or("err".into()));
+        }
+    }
+}
